@@ -70,3 +70,55 @@ vk_harness!(c08_cint_double, {
         }
     }
 });
+
+// ---------------------------------------------------------------------------------------------------------------
+// C02: documented numeric functions whose result is exactly characterisable (type-preserving ones and SGN).
+use crate::mach::vh_operation::{any_n, N};
+
+//@ prop: C02
+//@ tier: quick
+//@ unwind: 2
+//@ encodes: Function::int; Function::fix; Function::sgn; Function::abs (float arms); Function::cdbl; Function::csng
+//@ bounds: argument any of Integer/Single/Double with all bit patterns
+//@ outside: transcendental functions (SIN COS TAN ATN EXP LOG SQR go to libm, which CBMC over-approximates)
+vk_harness!(c02_numeric_functions, {
+    let v = any_n();
+    match (v, Function::int(v.val()), Function::fix(v.val()), Function::sgn(v.val())) {
+        (N::I(n), Ok(Val::Integer(a)), Ok(Val::Integer(b)), Ok(Val::Integer(s))) => {
+            vk_check!(a == n && b == n, "C02: INT/FIX of an Integer is the Integer");
+            vk_check!(s == if n > 0 { 1 } else if n < 0 { -1 } else { 0 }, "C02: SGN(Integer)");
+        }
+        (N::S(x), Ok(Val::Single(a)), Ok(Val::Single(b)), Ok(Val::Integer(s))) => {
+            if x.is_finite() {
+                vk_check!(a <= x && x < a + 1.0 || a == x, "C02: INT(Single) is the floor");
+                vk_check!(b.abs() <= x.abs() && (x.abs() - b.abs()) < 1.0 && (b == 0.0 || (b < 0.0) == (x < 0.0)), "C02: FIX(Single) truncates toward zero");
+            }
+            if !x.is_nan() {
+                vk_check!(s == if x > 0.0 { 1 } else if x < 0.0 { -1 } else { 0 }, "C02: SGN(Single)");
+            }
+        }
+        (N::D(x), Ok(Val::Double(a)), Ok(Val::Double(b)), Ok(Val::Integer(s))) => {
+            if x.is_finite() {
+                vk_check!(a <= x && x < a + 1.0 || a == x, "C02: INT(Double) is the floor");
+                vk_check!(b.abs() <= x.abs() && (x.abs() - b.abs()) < 1.0 && (b == 0.0 || (b < 0.0) == (x < 0.0)), "C02: FIX(Double) truncates toward zero");
+            }
+            if !x.is_nan() {
+                vk_check!(s == if x > 0.0 { 1 } else if x < 0.0 { -1 } else { 0 }, "C02: SGN(Double)");
+            }
+        }
+        _ => vk_check!(false, "C02: INT/FIX must keep the argument type and SGN must yield an Integer"),
+    }
+    match (v, Function::abs(v.val()), Function::cdbl(v.val()), Function::csng(v.val())) {
+        (N::I(n), _, Ok(Val::Double(d)), Ok(Val::Single(s))) => vk_check!(d == n as f64 && s == n as f32, "C02: CDBL/CSNG(Integer)"),
+        (N::S(x), Ok(Val::Single(a)), Ok(Val::Double(d)), Ok(Val::Single(s))) => {
+            vk_check!(a.to_bits() == (x.to_bits() & 0x7fff_ffff), "C02: ABS(Single) clears the sign");
+            vk_check!(s.to_bits() == x.to_bits() && (d.to_bits() == (x as f64).to_bits() || x.is_nan()), "C02: CDBL/CSNG(Single)");
+        }
+        (N::D(x), Ok(Val::Double(a)), Ok(Val::Double(d)), Ok(Val::Single(s))) => {
+            vk_check!(a.to_bits() == (x.to_bits() & 0x7fff_ffff_ffff_ffff), "C02: ABS(Double) clears the sign");
+            vk_check!(d.to_bits() == x.to_bits() && (s.to_bits() == (x as f32).to_bits() || x.is_nan()), "C02: CDBL/CSNG(Double)");
+        }
+        _ => vk_check!(false, "C02: ABS keeps the argument type; CDBL yields Double; CSNG yields Single"),
+    }
+    vk_cover!(true, "reach: numeric functions");
+});
